@@ -465,3 +465,34 @@ Example ex_single_window : (total_rows ex_bs < flush_threshold)%Z /\
 Proof. vm_compute. repeat split; reflexivity. Qed.
 Example ex_two_windows : map (map e_ts) (optimize 4 [11; 22; 22; 11; 0]%N ex_bs) = [[1; 2; 4]; [3]; [5; 6]; [7]; [0]]%Z.
 Proof. vm_compute. reflexivity. Qed.
+
+(* ------------------------------------------------------------------------------------------ *)
+(* channel batches never show: the bytes are a function of the row sequence alone. Two ways of cutting the same rows into
+   batches (any boundaries, empty batches, io.EOF markers anywhere) give the same body, byte for byte *)
+Theorem streams_batching_invisible : forall bs bs',
+  forallb (forallb no_fail) bs = true -> forallb (forallb no_fail) bs' = true ->
+  rows_streams bs = rows_streams bs' -> enc_streams cur_hdr bs = enc_streams cur_hdr bs'.
+Proof.
+  intros bs bs' H H' E. unfold cur_hdr. rewrite (enc_streams_canonical bs H), (enc_streams_canonical bs' H').
+  unfold doc_streams. now rewrite E.
+Qed.
+Theorem tail_batching_invisible : forall bs bs',
+  forallb (forallb no_fail) bs = true -> forallb (forallb no_fail) bs' = true ->
+  rows_streams bs = rows_streams bs' -> enc_tail cur_hdr bs = enc_tail cur_hdr bs'.
+Proof.
+  intros bs bs' H H' E. unfold cur_hdr. rewrite (enc_tail_canonical bs H), (enc_tail_canonical bs' H').
+  unfold doc_tail. now rewrite E.
+Qed.
+(* the matrix writer leaves a batch at its first io.EOF marker: the row sequence is [rows_matrix] *)
+Theorem matrix_batching_invisible : forall bs bs',
+  forallb (forallb no_fail) bs = true -> forallb (forallb no_fail) bs' = true ->
+  rows_matrix bs = rows_matrix bs' -> enc_matrix bs = enc_matrix bs'.
+Proof.
+  intros bs bs' H H' E. rewrite (enc_matrix_canonical bs H), (enc_matrix_canonical bs' H').
+  unfold doc_matrix. now rewrite E.
+Qed.
+Example batching_met :
+  let a := opt_row [7%N] 0 1 in let b := opt_row [7%N] 0 2 in let c := opt_row [7%N; 9%N] 1 3 in
+  rows_streams [[a; b; c]] = rows_streams [[a]; []; [eof_row; b]; [c; eof_row]] /\
+  rows_matrix [[a; b; c]] = rows_matrix [[a; eof_row; c]; [b]; [c]].
+Proof. split; reflexivity. Qed.
